@@ -15,8 +15,9 @@ PosTol == 3            \* micro-degrees
 Band == 25             \* metres around the range and jump thresholds
 MaxJump == 100000      \* metres
 
-VARIABLES l, pre, rx, range, now, heard
-vars == <<l, pre, rx, range, now, heard>>
+VARIABLES l, pre, rx, range, now, heard,
+          gone          \* addresses that were tracked and have been expired since the last reset
+vars == <<l, pre, rx, range, now, heard, gone>>
 
 \* ---- observed projection -> abstract record -------------------------------------------------
 SeqMap(s, Op(_)) == [i \in 1..Len(s) |-> Op(s[i])]
@@ -139,6 +140,8 @@ ActionDiff(ev) ==
                    old == IF isnew THEN Fresh ELSE AbsRec(pre[a])
                IN (IF DOMAIN post = DOMAIN pre \cup {a} THEN {} ELSE {"tracked_set"})
                   \cup (IF ev.added = (IF isnew THEN 1 ELSE 0) THEN {} ELSE {"added"})
+                  \* an expired aircraft that is heard again is reported as newly added (C15's own clause)
+                  \cup (IF isnew /\ a \in gone /\ ev.added # 1 THEN {"readded_not_reported"} ELSE {})
                   \cup (IF \A c \in DOMAIN pre \cap DOMAIN post : c # a => post[c] = pre[c] THEN {} ELSE {"isolation"})
                   \cup (IF a \in DOMAIN post THEN RecDiff(old, AbsRec(post[a]), ev.bytes) ELSE {"record_missing"})
                   \cup Views(post)
@@ -161,7 +164,7 @@ OwnerOf(f) ==
     [] f \in {"position", "changed_position"} -> "C13"
     [] f \in {"cs", "heading", "speed", "vrate", "altitude", "changed_cs", "changed_vel", "changed_track", "track", "dist_iff_pos", "all_position", "details", "details_missing",
               "display", "pos_without_pair"} -> "C14"
-    [] f \in {"expired_set", "survivor_changed"} -> "C15"
+    [] f \in {"expired_set", "survivor_changed", "readded_not_reported"} -> "C15"
     [] f \in {"serde_failed", "serde_roundtrip"} -> "C20"
     [] OTHER -> "C01"                                   \* panic
 
@@ -175,13 +178,16 @@ ClassOf(ev) == IF ev.ev = "action" THEN "track|" \o Class(ev.bytes) ELSE "track|
 Judge(ev) == LET d == EvDiff(ev) IN
              IF d = {} THEN TRUE ELSE PrintT(<<"VERDICT", l, ClassOf(ev), {<<OwnerOf(f), f>> : f \in d}>>)
 
-Init == /\ l = 1 /\ pre = << >> /\ rx = [lat |-> 0, lon |-> 0] /\ range = 0 /\ now = 0 /\ heard = << >>
+Init == /\ l = 1 /\ pre = << >> /\ rx = [lat |-> 0, lon |-> 0] /\ range = 0 /\ now = 0 /\ heard = << >> /\ gone = {}
 
 Consume ==
   /\ l <= Len(Rec)
   /\ LET ev == Rec[l] IN
      /\ Judge(ev)
      /\ l' = l + 1
+     /\ gone' = IF ev.ev = "reset" THEN {}
+                ELSE IF ev.ev = "prune" /\ ev.outcome = "ok" /\ DistinctAddrs(ev.planes) THEN gone \cup (DOMAIN pre \ DOMAIN AsMap(ev.planes))
+                ELSE gone
      /\ CASE ev.ev = "reset" -> /\ pre' = << >> /\ rx' = ev.rx /\ range' = ev.range_m /\ now' = 0 /\ heard' = << >>
           [] ev.ev = "action" ->
                LET post == IF ev.outcome = "panic" \/ ~DistinctAddrs(ev.planes) THEN pre ELSE AsMap(ev.planes)
